@@ -167,19 +167,19 @@ Proof. destruct r. reflexivity. Qed.
 
 (* every key below a section extends the key of the section by a chain of
    checked titles *)
-Lemma secs_keys r : forall top k k' n,
-  titles_ok top r = true -> In (k', n) (secs k r) ->
+Lemma secs_keys figs r : forall k k' n,
+  titles_ok figs k r = true -> In (k', n) (secs k r) ->
   exists suf, k' = k ++ suf /\ Forall good_name suf /\
-              (top = true -> suf <> ["index"%string]) /\ (suf = [] -> n = r).
+              (k = [] -> suf <> ["index"%string]) /\ (suf = [] -> n = r).
 Proof.
-  induction r as [t rs cs IH] using report_ind'. intros top k k' n Hok Hin.
+  induction r as [t rs cs IH] using report_ind'. intros k k' n Hok Hin.
   rewrite secs_unfold in Hin. cbn [children_of] in Hin. destruct Hin as [E|Hin].
   - inversion E; subst. exists []. rewrite app_nil_r. repeat split; auto. discriminate.
   - cbn in Hok. apply andb_true_iff in Hok as [_ Hok]. rewrite forallb_forall in Hok.
     apply in_flat_map in Hin as (c & Hc & Hin).
     specialize (Hok c Hc). apply andb_true_iff in Hok as [Hok Hrec]. apply andb_true_iff in Hok as [Ht _].
     apply title_ok_good in Ht as [G Hidx].
-    rewrite Forall_forall in IH. destruct (IH c Hc false _ _ _ Hrec Hin) as (suf & -> & Gs & _ & _).
+    rewrite Forall_forall in IH. destruct (IH c Hc _ _ _ Hrec Hin) as (suf & -> & Gs & _ & _).
     exists (title_of c :: suf). rewrite <- app_assoc. cbn. repeat split.
     + constructor; assumption.
     + intros Htop E. inversion E; subst. now apply Hidx.
@@ -190,9 +190,9 @@ Lemma app_cons_neq {A} (k : list A) a s : k ++ a :: s <> k.
 Proof. intros E. apply (f_equal (@length _)) in E. rewrite app_length in E. cbn in E. lia. Qed.
 
 (* no two sections have the same key *)
-Lemma secs_nodup r : forall top k, titles_ok top r = true -> NoDup (map fst (secs k r)).
+Lemma secs_nodup figs r : forall k, titles_ok figs k r = true -> NoDup (map fst (secs k r)).
 Proof.
-  induction r as [t rs cs IH] using report_ind'. intros top k Hok.
+  induction r as [t rs cs IH] using report_ind'. intros k Hok.
   rewrite secs_unfold. cbn [children_of map fst].
   pose proof Hok as Hok0. cbn in Hok. apply andb_true_iff in Hok as [Hnd Hok].
   apply nodupb_NoDup in Hnd. rewrite forallb_forall in Hok.
@@ -200,9 +200,9 @@ Proof.
   - intros Hin. apply in_map_iff in Hin as ([k' n] & E & Hin). cbn in E. subst k'.
     apply in_flat_map in Hin as (c & Hc & Hin).
     specialize (Hok c Hc). apply andb_true_iff in Hok as [_ Hrec].
-    destruct (secs_keys c false _ _ _ Hrec Hin) as (suf & E & _).
+    destruct (secs_keys figs c _ _ _ Hrec Hin) as (suf & E & _).
     rewrite <- app_assoc in E. cbn in E. symmetry in E. now apply app_cons_neq in E.
-  - assert (Hrec : forall c, In c cs -> titles_ok false c = true).
+  - assert (Hrec : forall c, In c cs -> titles_ok figs (k ++ [title_of c]) c = true).
     { intros c Hc. specialize (Hok c Hc). now apply andb_true_iff in Hok as [_ Hok]. }
     clear Hok0 Hok. induction cs as [|c cs IHcs]; cbn; [constructor|].
     rewrite map_app. inversion IH as [|? ? IHc IHrest]; subst. inversion Hnd as [|? ? Hnotin Hnd']; subst.
@@ -215,8 +215,8 @@ Proof.
       apply in_flat_map in H2 as (c' & Hc' & H2).
       pose proof (Hrec c (or_introl eq_refl)) as Ha.
       pose proof (Hrec c' (or_intror Hc')) as Hb.
-      destruct (secs_keys c false _ _ _ Ha H1) as (s1 & E1 & _).
-      destruct (secs_keys c' false _ _ _ Hb H2) as (s2 & E2 & _).
+      destruct (secs_keys figs c _ _ _ Ha H1) as (s1 & E1 & _).
+      destruct (secs_keys figs c' _ _ _ Hb H2) as (s2 & E2 & _).
       rewrite E1 in E2. rewrite <- !app_assoc in E2. apply app_inv_head in E2. cbn in E2.
       injection E2 as Et _. apply Hnotin. rewrite Et. now apply in_map.
 Qed.
@@ -278,12 +278,13 @@ Variable r : report.
 Hypothesis W : writable r = true.
 
 Let Hlev : levels_ok 0 r = true. Proof. unfold writable in W. now apply andb_true_iff in W. Qed.
-Let Htit : titles_ok true r = true. Proof. unfold writable in W. now apply andb_true_iff in W. Qed.
+Let Htit : titles_ok (map fig_name (dedupe (all_images r))) [] r = true.
+Proof. unfold writable in W. now apply andb_true_iff in W. Qed.
 
 Lemma key_facts k n : In (k, n) (secs [] r) ->
   Forall good_name k /\ k <> ["index"%string] /\ (k = [] -> n = r).
 Proof.
-  intros Hin. destruct (secs_keys r true [] k n Htit Hin) as (suf & E & G & Hi & Hr).
+  intros Hin. destruct (secs_keys _ r [] k n Htit Hin) as (suf & E & G & Hi & Hr).
   cbn in E. subst. auto.
 Qed.
 
